@@ -237,7 +237,17 @@ def record_sequences(rnd, ntraces, nsteps):
         now = rnd.randrange(0, 40) * P // 2
         evs = []
         used = []
+        rekey_at = rnd.choice([None, None, 3, 6])
         for k in range(nsteps):
+            if k == rekey_at and evs:
+                # history: the object gets another key after it has matched codes; from then on only the new key's codes count
+                cmin = min(codes)
+                traces.append({"id": len(traces), "p": P, "digits": digits, "base": base, "cmin": cmin, "codes": [codes[c] for c in range(cmin, span + 1)],
+                               "events": evs, "_meta": dict(key=key.hex(), alg=alg, T0=T0)})
+                key = bytes(rnd.randrange(256) for _ in range(len(key)))
+                totp.key = key
+                codes = {c: int(hotp_ref(key, alg, T0 + c, digits)) for c in range(max(-span, -T0), span + 1)}
+                evs, used, last = [], [], None
             now += rnd.choice([0, 1, P // 2, P, 2 * P + 1, 5 * P])
             if now // P > span - 30:
                 break
@@ -288,7 +298,7 @@ def record_sequences(rnd, ntraces, nsteps):
             evs.append({"tok": txt, "t": now, "w": w, "skew": skew,
                         "last": base - 1 if last_real is None else last_real - T0, "res": res})
         cmin = min(codes)
-        traces.append({"id": ti, "p": P, "digits": digits, "base": base, "cmin": cmin,
+        traces.append({"id": len(traces), "p": P, "digits": digits, "base": base, "cmin": cmin,
                        "codes": [codes[c] for c in range(cmin, span + 1)], "events": evs,
                        "_meta": dict(key=key.hex(), alg=alg, T0=T0)})
     return traces
